@@ -82,6 +82,8 @@ type Typedef struct {
 
 type Grouping struct {
 	Name      string      `json:"name"`
+	Desc      string      `json:"desc,omitempty"`
+	Ref       string      `json:"ref,omitempty"`
 	Status    string      `json:"status,omitempty"`
 	Kids      []*Node     `json:"kids,omitempty"`
 	Typedefs  []*Typedef  `json:"typedefs,omitempty"`
@@ -238,6 +240,12 @@ func (x *w) grouping(d int, g *Grouping) {
 	x.ln(d, "grouping %s {", g.Name)
 	if g.Status != "" {
 		x.ln(d+1, "status %s;", g.Status)
+	}
+	if g.Desc != "" {
+		x.ln(d+1, "description %s;", q(g.Desc))
+	}
+	if g.Ref != "" {
+		x.ln(d+1, "reference %s;", q(g.Ref))
 	}
 	for _, t := range g.Typedefs {
 		x.typedef(d+1, t)
